@@ -159,6 +159,24 @@ func (g *gate) Put(key string, v interface{}) error {
 	return err
 }
 
+// Get of a stored traffic total (what a refresh reads back) is held AFTER the read until the
+// controller lets it return: at HEAD the read happens under the peer lock, so concurrent updates
+// wait; a variant that reads before locking lets them overtake the held value.
+func (g *gate) Get(key string, i interface{}) error {
+	err := g.StateStorer.Get(key, i)
+	g.mu.Lock()
+	en := g.enabled
+	g.mu.Unlock()
+	if !en || !(strings.HasPrefix(key, "retrieved_traffic_") || strings.HasPrefix(key, "transferred_traffic_")) {
+		return err
+	}
+	r := &req{w: write{Key: "get:" + key, Gid: goid()}, grant: make(chan struct{}), done: make(chan struct{})}
+	g.reqs <- r
+	<-r.grant
+	close(r.done)
+	return err
+}
+
 // ---------------------------------------------------------------- case
 
 type opJ struct {
@@ -300,6 +318,8 @@ func runCase(c caseJ) (out outcome, err error) {
 					_ = svc.PutTransferTraffic(overlay, big.NewInt(o.V))
 				case "pay":
 					_ = svc.Pay(context.Background(), overlay, big.NewInt(o.V))
+				case "refresh":
+					_ = svc.TrafficInit()
 				case "recv":
 					_ = svc.ReceiveCheque(context.Background(), overlay, &chequePkg.SignedCheque{Cheque: chequePkg.Cheque{Recipient: selfAddr, Beneficiary: peerAddr, CumulativePayout: big.NewInt(o.V)}, Signature: []byte{1}})
 				}
@@ -315,6 +335,7 @@ func runCase(c caseJ) (out outcome, err error) {
 	r := hx.NewRand(c.Seed)
 	var grants []granted
 	var pending []*req
+	putsSinceGet, getAfter := 0, 1+r.Intn(2)
 	var crashSeq int64 = -1
 	var crashLog []write
 	deadline := time.Now().Add(20 * time.Second)
@@ -349,8 +370,53 @@ func runCase(c caseJ) (out outcome, err error) {
 		if len(pending) > out.MaxWait {
 			out.MaxWait = len(pending)
 		}
-		k := r.Intn(len(pending))
+		// held reads are released only when no store write is waiting (give writers a chance to overtake)
+		var puts []int
+		for i, p := range pending {
+			if !strings.HasPrefix(p.w.Key, "get:") {
+				puts = append(puts, i)
+			}
+		}
+		var k int
+		if len(puts) > 0 && len(puts) < len(pending) && putsSinceGet >= getAfter {
+			// a read is held and enough writes overtook it: release the read now, so that
+			// later writes run after whatever the reader does with its (possibly stale) value
+			for i, p := range pending {
+				if strings.HasPrefix(p.w.Key, "get:") {
+					k = i
+					break
+				}
+			}
+		} else if len(puts) > 0 {
+			k = puts[r.Intn(len(puts))]
+			putsSinceGet++
+		} else {
+			time.Sleep(3 * time.Millisecond)
+			more := false
+		drain2:
+			for {
+				select {
+				case q := <-g.reqs:
+					pending = append(pending, q)
+					more = true
+				default:
+					break drain2
+				}
+			}
+			if more {
+				continue
+			}
+			k = r.Intn(len(pending))
+		}
 		q := pending[k]
+		if strings.HasPrefix(q.w.Key, "get:") {
+			putsSinceGet = 0
+			getAfter = 1 + r.Intn(2)
+			pending = append(pending[:k], pending[k+1:]...)
+			close(q.grant)
+			<-q.done
+			continue
+		}
 		pending = append(pending[:k], pending[k+1:]...)
 		if len(grants) == c.CrashK && crashSeq < 0 {
 			// crash point: before this write reaches the store
@@ -473,6 +539,9 @@ func deriveSchedule(c caseJ, init [4]int64, grants []granted, ng int) (progs [][
 	for i := 0; i < ng; i++ {
 		gr := grants[i]
 		op := c.Progs[gr.thread][gr.opIdx]
+		if gr.kind == "other" || op.K == "refresh" {
+			continue // chain totals written by a refresh: not part of the model's disk; a refresh is the identity on the modelled memory when no cheque was received in the epoch
+		}
 		progs[gr.thread] = append(progs[gr.thread], op)
 		switch gr.kind {
 		case "rT":
@@ -600,6 +669,8 @@ func coqOp(o opJ) string {
 		return hx.CoqApp("PutT", hx.CoqZ(o.V))
 	case "pay":
 		return hx.CoqApp("Pay", hx.CoqZ(o.V))
+	case "refresh":
+		return "Refresh"
 	}
 	return hx.CoqApp("Recv", hx.CoqZ(o.V))
 }
@@ -707,6 +778,12 @@ func main() {
 			}
 		}
 	}
+	// a 24 h refresh concurrent with traffic updates
+	for i := 0; i < run.N(6, 30); i++ {
+		w1 := []opJ{{"putR", 10}, {"putR", 5}, {"putR", 1}, {"putT", 2}, {"putR", 3}, {"putR", 4}, {"putR", 6}, {"putR", 2}}
+		w2 := []opJ{{"putT", 3}, {"putR", 2}, {"putT", 1}, {"putR", 7}, {"putR", 1}, {"putT", 5}, {"putR", 2}, {"putR", 9}}
+		do(caseJ{D0: [6]int64{4, 2, 0, 0, 0, 0}, Progs: [][]opJ{{{"refresh", 0}, {"refresh", 0}, {"refresh", 0}}, w1, w2}, CrashK: 99, Seed: r.U64()}, "corpus.refresh-vs-updates")
+	}
 	// a peer known only through cheques (no traffic totals stored yet)
 	do(caseJ{NoKeys: true, Progs: [][]opJ{{}, {}, {{"recv", 9}}}, CrashK: 99, Seed: 1}, "corpus.cheque-only-peer")
 	do(caseJ{NoKeys: true, Progs: [][]opJ{{{"putR", 4}}, {{"pay", 1}}, {{"recv", 9}}}, CrashK: 99, Seed: 2}, "corpus.cheque-only-peer")
@@ -748,8 +825,18 @@ func main() {
 			}
 			total++
 		}
-		c.Progs = append(c.Progs, cp)
-		c.CrashK = r.Intn(total + 2)
+		if r.Chance(1, 3) {
+			// refresh epoch: no cheque receipts (a refresh is then the identity on the modelled memory), a refresh thread instead
+			c.Progs[len(c.Progs)-1] = nil
+			var rp []opJ
+			for k := 0; k < 1+r.Intn(2); k++ {
+				rp = append(rp, opJ{"refresh", 0})
+			}
+			c.Progs = append(c.Progs, rp)
+			c.CrashK = 99
+		} else {
+			c.CrashK = r.Intn(total + 2)
+		}
 		c.Seed = r.U64()
 		do(c, "random")
 	}
